@@ -23,9 +23,23 @@ pub enum EncRecipe {
     Derived { user: u16, clause: u16, variant: u8, pos: u16, extra: u16 },
 }
 
+/// Edits applied to the structure after it was built and before any key is generated: the
+/// property quantifies over all access structures, including those reached through edits and
+/// through a serialization round-trip of the master key.
+#[derive(Clone, Debug, Serialize, Deserialize, Hash, PartialEq, Eq)]
+pub enum Detour {
+    Del { dim: u16, attr: u16 },
+    Add { dim: u16, after: Option<u16>, hybrid: bool },
+    Rename { dim: u16, attr: u16 },
+    RoundTrip,
+    Update,
+}
+
 #[derive(Clone, Debug, Serialize, Deserialize, Hash, PartialEq, Eq)]
 pub struct CoverCase {
     pub spec: StructSpec,
+    #[serde(default)]
+    pub detours: Vec<Detour>,
     pub users: Vec<PolicySpec>,
     pub encs: Vec<EncRecipe>,
 }
@@ -36,12 +50,20 @@ fn strategy(thorough: bool) -> impl Strategy<Value = CoverCase> {
         2 => policy_spec(3, 3, 2).prop_map(EncRecipe::Free),
         5 => (any::<u16>(), any::<u16>(), 0u8..6, any::<u16>(), any::<u16>()).prop_map(|(user, clause, variant, pos, extra)| EncRecipe::Derived { user, clause, variant, pos, extra }),
     ];
+    let detour = prop_oneof![
+        3 => (any::<u16>(), any::<u16>()).prop_map(|(dim, attr)| Detour::Del { dim, attr }),
+        3 => (any::<u16>(), proptest::option::of(any::<u16>()), any::<bool>()).prop_map(|(dim, after, hybrid)| Detour::Add { dim, after, hybrid }),
+        2 => (any::<u16>(), any::<u16>()).prop_map(|(dim, attr)| Detour::Rename { dim, attr }),
+        2 => Just(Detour::RoundTrip),
+        2 => Just(Detour::Update),
+    ];
     (
         struct_spec(md, ma, mr, true),
+        prop_oneof![1 => Just(vec![]), 1 => proptest::collection::vec(detour, 1..=5)],
         proptest::collection::vec(policy_spec(3, 3, 2), 2..=5),
         proptest::collection::vec(enc, 2..=6),
     )
-        .prop_map(|(spec, users, encs)| CoverCase { spec, users, encs })
+        .prop_map(|(spec, detours, users, encs)| CoverCase { spec, detours, users, encs })
 }
 
 fn derive(spec: &StructSpec, user_dnf: &[Conj], clause: u16, variant: u8, pos: u16, extra: u16) -> Conj {
@@ -166,8 +188,74 @@ pub fn check_case(focus: &str, case: &CoverCase, col: &Collector) -> CheckResult
     let cc = Covercrypt::default();
     let (mut msk, _) = cc.setup().map_err(|e| Fail::new("setup-failed", short_err(&e)))?;
     case.spec.build(&mut msk.access_structure).map_err(|e| Fail::new("structure-build-failed", format!("{}: {}", case.spec.shape(), short_err(&e))))?;
-    let mpk = cc.update_msk(&mut msk).map_err(|e| Fail::new("update-failed", short_err(&e)))?;
-    let view = view_of(&case.spec);
+    let mut mpk = cc.update_msk(&mut msk).map_err(|e| Fail::new("update-failed", short_err(&e)))?;
+    // detours: the name-level structure is edited in parallel
+    let mut spec = case.spec.clone();
+    let mut fresh = 0;
+    for d in &case.detours {
+        match d {
+            Detour::Del { dim, attr } => {
+                let di = pick(*dim, spec.dims.len());
+                if spec.dims[di].attrs.len() < 2 {
+                    continue;
+                }
+                let ai = pick(*attr, spec.dims[di].attrs.len());
+                let (dn, an) = (spec.dims[di].name.clone(), spec.dims[di].attrs[ai].0.clone());
+                msk.access_structure.del_attribute(&qa(&dn, &an)).map_err(|e| Fail::new("detour-failed", short_err(&e)))?;
+                spec.dims[di].attrs.remove(ai);
+                col.class("detour:delete");
+            }
+            Detour::Add { dim, after, hybrid } => {
+                let di = pick(*dim, spec.dims.len());
+                if spec.n_rights() / (spec.dims[di].attrs.len() + 1) * (spec.dims[di].attrs.len() + 2) > 260 {
+                    continue;
+                }
+                fresh += 1;
+                let name = format!("new{fresh}");
+                let dn = spec.dims[di].name.clone();
+                let hier = spec.dims[di].hier;
+                let after_ix = after.map(|a| pick(a, spec.dims[di].attrs.len()));
+                let after_name = after_ix.map(|i| spec.dims[di].attrs[i].0.clone());
+                msk.access_structure
+                    .add_attribute(qa(&dn, &name), hint(*hybrid), after_name.as_deref())
+                    .map_err(|e| Fail::new("detour-failed", short_err(&e)))?;
+                if hier {
+                    match after_ix {
+                        None => spec.dims[di].attrs.insert(0, (name, *hybrid)),
+                        Some(i) => spec.dims[di].attrs.insert(i + 1, (name, *hybrid)),
+                    }
+                } else {
+                    spec.dims[di].attrs.push((name, *hybrid));
+                }
+                col.class("detour:add");
+            }
+            Detour::Rename { dim, attr } => {
+                let di = pick(*dim, spec.dims.len());
+                let ai = pick(*attr, spec.dims[di].attrs.len());
+                let (dn, an) = (spec.dims[di].name.clone(), spec.dims[di].attrs[ai].0.clone());
+                fresh += 1;
+                let nn = format!("{an}~{fresh}");
+                msk.access_structure.rename_attribute(&qa(&dn, &an), nn.clone()).map_err(|e| Fail::new("detour-failed", short_err(&e)))?;
+                spec.dims[di].attrs[ai].0 = nn;
+                col.class("detour:rename");
+            }
+            Detour::RoundTrip => {
+                let b = ser(&msk)?;
+                msk = de(&b).map_err(|e| Fail::new("roundtrip-deserialize-failed:msk", e))?;
+                col.class("detour:msk-roundtrip");
+            }
+            Detour::Update => {
+                mpk = cc.update_msk(&mut msk).map_err(|e| Fail::new("update-failed", short_err(&e)))?;
+                col.class("detour:update");
+            }
+        }
+    }
+    if !case.detours.is_empty() {
+        mpk = cc.update_msk(&mut msk).map_err(|e| Fail::new("update-failed", short_err(&e)))?;
+        col.class("cases-with-detours");
+    }
+    let spec = &spec;
+    let view = view_of(spec);
     let mut users: Vec<(RPolicy, Vec<Conj>, UserSecretKey)> = vec![];
     for ps in &case.users {
         let rp = ps.resolve(&view);
@@ -178,7 +266,7 @@ pub fn check_case(focus: &str, case: &CoverCase, col: &Collector) -> CheckResult
         }
         let usk = cc
             .generate_user_secret_key(&mut msk, &pol)
-            .map_err(|e| Fail::new("keygen-failed-on-well-formed-policy", format!("{} on {}: {}", rp.describe(), case.spec.shape(), short_err(&e))))?;
+            .map_err(|e| Fail::new("keygen-failed-on-well-formed-policy", format!("{} on {}: {}", rp.describe(), spec.shape(), short_err(&e))))?;
         users.push((rp, dnf, usk));
     }
     let mut encs: Vec<(RPolicy, Vec<Conj>, Vec<u8>, XEnc)> = vec![];
@@ -187,7 +275,7 @@ pub fn check_case(focus: &str, case: &CoverCase, col: &Collector) -> CheckResult
             EncRecipe::Free(ps) => ps.resolve(&view),
             EncRecipe::Derived { user, clause, variant, pos, extra } => {
                 let (_, udnf, _) = &users[pick(*user, users.len())];
-                let c = derive(&case.spec, udnf, *clause, *variant, *pos, *extra);
+                let c = derive(spec, udnf, *clause, *variant, *pos, *extra);
                 col.class(&format!("enc-derived:variant{variant}"));
                 RPolicy::from_dnf(&[c], (*extra as u64) << 8 | *variant as u64)
             }
@@ -196,17 +284,17 @@ pub fn check_case(focus: &str, case: &CoverCase, col: &Collector) -> CheckResult
         let (pol, _) = rp.to_policy().map_err(|e| Fail::new("generated-policy-rejected-by-parser", e))?;
         let (s, enc) = cc
             .encaps(&mpk, &pol)
-            .map_err(|e| Fail::new("encaps-failed-on-well-formed-policy", format!("{} on {}: {}", rp.describe(), case.spec.shape(), short_err(&e))))?;
+            .map_err(|e| Fail::new("encaps-failed-on-well-formed-policy", format!("{} on {}: {}", rp.describe(), spec.shape(), short_err(&e))))?;
         encs.push((rp, dnf, s.to_vec(), enc));
     }
     for (urp, udnf, usk) in &users {
         for (erp, ednf, secret, enc) in &encs {
-            let covered = policy_covers(&case.spec, udnf, ednf);
+            let covered = policy_covers(spec, udnf, ednf);
             col.eval(1);
             let r = cc.decaps(usk, enc);
-            let ctx = || format!("structure {} user '{}' enc '{}'", case.spec.shape(), urp.describe(), erp.describe());
-            let pair = Pair { spec: &case.spec, user: udnf, enc: ednf };
-            let fp = (case.spec.shape(), udnf, ednf);
+            let ctx = || format!("structure {} user '{}' enc '{}'", spec.shape(), urp.describe(), erp.describe());
+            let pair = Pair { spec: spec, user: udnf, enc: ednf };
+            let fp = (spec.shape(), udnf, ednf);
             match r {
                 Err(e) => return Err(Fail::new("decaps-error-on-valid-objects", format!("{}: decaps returned Err({})", ctx(), short_err(&e)))),
                 Ok(Some(s)) => {
@@ -229,7 +317,7 @@ pub fn check_case(focus: &str, case: &CoverCase, col: &Collector) -> CheckResult
                                 col.class(&format!("c01:{r}"));
                             }
                             if !reasons.is_empty() && col.nontrivial(&fp) {
-                                col.sample(|| json!({"structure": case.spec.shape(), "user_policy": urp.describe(), "enc_policy": erp.describe(), "verdict": "opened to the encapsulated secret", "why_nontrivial": reasons}));
+                                col.sample(|| json!({"structure": spec.shape(), "user_policy": urp.describe(), "enc_policy": erp.describe(), "verdict": "opened to the encapsulated secret", "why_nontrivial": reasons}));
                             }
                         }
                     }
@@ -248,7 +336,7 @@ pub fn check_case(focus: &str, case: &CoverCase, col: &Collector) -> CheckResult
                                 col.class(&format!("c02:{r}"));
                             }
                             if !reasons.is_empty() && col.nontrivial(&fp) {
-                                col.sample(|| json!({"structure": case.spec.shape(), "user_policy": urp.describe(), "enc_policy": erp.describe(), "verdict": "None", "why_nontrivial": reasons}));
+                                col.sample(|| json!({"structure": spec.shape(), "user_policy": urp.describe(), "enc_policy": erp.describe(), "verdict": "None", "why_nontrivial": reasons}));
                             }
                         }
                     }
@@ -418,6 +506,7 @@ pub fn run(ctx: &Ctx, col: &Collector) -> Meta {
         let ps = |g: Vec<Vec<(u16, Vec<u16>)>>, shape: u64| PolicySpec { broadcast: false, groups: g, shape };
         let big = CoverCase {
             spec: big_spec(),
+            detours: vec![Detour::Del { dim: 0, attr: 30000 }, Detour::RoundTrip, Detour::Add { dim: 0, after: Some(10000), hybrid: true }],
             users: vec![
                 ps(vec![vec![(0, vec![30000])]], 2),
                 ps(vec![vec![(0, vec![12000]), (20000, vec![0]), (60000, vec![40000])]], 3),
@@ -450,7 +539,7 @@ pub fn run(ctx: &Ctx, col: &Collector) -> Meta {
         }
     }
     let rule = if focus == "C01" {
-        "random structures (1-4 dimensions, hierarchies built by out-of-order `after` insertions, arbitrary hints, non-ASCII / inner-space names) with 2-5 user policies and 2-6 encryption policies (free, or derived from a user clause: same / lower attribute / extra unmentioned dimension / dropped dimension / one step outside), policies passed as ASTs or through the parser with random spacing and parentheses; plus exhaustive tables on three fixed structures (all user DNFs with <= 2 clauses x all single-conjunction encryption policies). Oracle: name-level cover predicate. Non-trivial = authorized pair whose authorization uses a lower hierarchical attribute, an unmentioned dimension, a multi-clause user policy, a multi-target encapsulation, a hybridized target or >= 3 dimensions; distinct by (structure shape, user DNF, encryption DNF)"
+        "random structures (1-4 dimensions, hierarchies built by out-of-order `after` insertions, arbitrary hints, non-ASCII / inner-space names) with 2-5 user policies and 2-6 encryption policies (free, or derived from a user clause: same / lower attribute / extra unmentioned dimension / dropped dimension / one step outside), policies passed as ASTs or through the parser with random spacing and parentheses; half of the structures then go through 1-5 edits (delete / add with `after` / rename / master-key round-trip / update) before any key exists, the name-level structure being edited in parallel; plus exhaustive tables on three fixed structures (all user DNFs with <= 2 clauses x all single-conjunction encryption policies). Oracle: name-level cover predicate. Non-trivial = authorized pair whose authorization uses a lower hierarchical attribute, an unmentioned dimension, a multi-clause user policy, a multi-target encapsulation, a hybridized target or >= 3 dimensions; distinct by (structure shape, user DNF, encryption DNF)"
     } else {
         "same cases as C01 (one run yields both verdict kinds; this check reports the unauthorized half). Oracle: name-level cover predicate says no conjunction is covered => decaps must return None (Some(x) for any x is a violation). Non-trivial = unauthorized pair at distance one from authorization: exactly one attribute of a conjunction fails against some user clause (next higher level in a hierarchy, sibling in an anarchy), possibly sharing all other dimensions; distinct by (structure shape, user DNF, encryption DNF)"
     };
